@@ -416,6 +416,12 @@ def compare(case, outputs, stats, quick):
                 sig = {"kind": "observation-mismatch", "obs": suffix, "field": field_kind_of(m, e["struct"], k), "truncated-array": "yes" if known_area else "no"}
                 sk = vlib.h(sig)
                 per_sig[sk] = per_sig.get(sk, 0) + 1
+                if known_area and not case.get("per_observation"):
+                    # the recorded finding (array views on truncated buffers): report it (capped), but neither
+                    # let it use up the module's budget nor stop the comparison of the rest of the view
+                    if per_sig[sk] <= 3:
+                        stats.fail(sig, {"text": case["text"], "struct": e["struct"], "params": e["params"], "buf": e["buf"]}, "key %s: generated code reports %s, reference says %s\n(buffer %s, params %s)" % (k, gd[k], v, e["buf"], e["params"]))
+                    continue
                 if (nfail < 12 and not case.get("per_observation")) or (case.get("per_observation") and per_sig[sk] <= 3):
                     stats.fail(sig, {"text": case["text"], "struct": e["struct"], "params": e["params"], "buf": e["buf"]}, "key %s: generated code reports %s, reference says %s\n(buffer %s, params %s)" % (k, gd[k], v, e["buf"], e["params"]))
                 nfail += 1
